@@ -515,7 +515,7 @@ func PruferDecode(p []int) *DenseGraph {
 		}
 		break
 	}
-	return &DenseGraph{NumberOfVertices: n, Edges: edges}
+	return NewDense(n, edges)
 }
 
 //AdjacencyMatrixEncode returns an encoding of the adjacency matrix of g suitable for copying into MATLAB.
